@@ -69,6 +69,19 @@ def run_one(rx, tape, mr, via_fake):
     return ev
 
 
+def has_char_draw(rx):
+    k = rx["r"]
+    if k in ("any", "class", "notlit"):
+        return True
+    if k in ("group", "rep", "uns"):
+        return has_char_draw(rx["body"])
+    if k == "alt":
+        return any(has_char_draw(x) for x in rx["alts"])
+    if k == "seq":
+        return any(has_char_draw(x) for x in rx["parts"])
+    return False
+
+
 def describe(e):
     return {"pattern": e.get("pattern"), "max_repeat": e["mr"], "tape": e["tape"], "exc": e["exc"],
             "generated": am.g_text(e["w"]), "re_fullmatch": e["py_full"], "via_fake": e["via_fake"],
@@ -98,6 +111,28 @@ def main(chk):
             chk.count("refused" if ev["exc"] else "generated")
             if ev["py_full"] == "timeout":
                 chk.count("re_timeout")
+    # code -> spec only: every outcome of the single-character draws.  For each short pattern of
+    # the machine that contains a character draw (., a class, a negated class), the generator is
+    # run with *every* index as the outcome of each choice (the model cannot predict which letter
+    # an index selects from a hash-ordered candidate string; the verdict does not need to)
+    seen = set()
+    for st in core.load_dump(res, only='"obs"'):
+        if st["phase"] != "obs" or st["steps"] > 2:
+            continue
+        rx = st["stack"][0]
+        k = core.json.dumps(rx, sort_keys=True)
+        if k in seen or not has_char_draw(rx):
+            continue
+        seen.add(k)
+        for idx in range(1, 101):
+            for via_fake in (False, True):
+                ev = run_one(rx, ["i:%d" % idx], 32, via_fake)
+                if ev is None:
+                    continue
+                ev["id"] = len(events) + 1
+                events.append(ev)
+                chk.count("index_sweep_runs")
+    chk.require(chk.counts.get("index_sweep_runs", 0) >= 2000, "index sweep too small")
     chk.require(len(events) >= 10000, "fewer than 10000 generator runs (%d)" % len(events))
     chk.require(chk.counts.get("generated", 0) >= 5000 and chk.counts.get("refused", 0) >= 500,
                 "outcome mix too thin: %r" % chk.counts)
